@@ -5,14 +5,16 @@ from .wrap import CanCustomize
 
 class BoundCallable(CanCustomize, object):
     def __init__(self, executor, fn):
-        self.__executor = executor
-        self.__fn = fn
-
         try:
             update_wrapper(self, fn)
         except AttributeError:
             # Update wrapper if we can, but not fatal if we can't
             pass
+
+        # (Set after update_wrapper, which copies fn's attributes onto us:
+        # if fn is itself a bound callable, that includes its executor and fn.)
+        self.__executor = executor
+        self.__fn = fn
 
         # Executors created by with_* calls on this object inherit the name
         # of the executor we're bound to, as they would if created from the
